@@ -852,6 +852,69 @@ pub fn fast_path_pdu(updates: &[FpUpdate], first: u8, long_len: bool) -> Built {
 }
 
 /// The repository's captured demand-active capability sets (test_demand_active_pdu), used as the "known real server" sample.
+/// BER / DER length-form mutations: for every TLV header found by walking `bytes` from `start` (descending into constructed
+/// elements), copies of `bytes` in which that header's length octets are replaced by long forms of 1..=8 octets (and the reserved
+/// 0xFF, and the indefinite 0x80) holding the true length (non-minimal), all ones, 0x7F.., 0x80 00.., and true length + 1.
+/// Enclosing lengths are left as they are: every parser on the way must cope with both the value and the inconsistency.
+pub fn der_length_mutations(bytes: &[u8], start: usize) -> Vec<Vec<u8>> {
+    fn walk(b: &[u8], mut pos: usize, end: usize, depth: usize, out: &mut Vec<(usize, usize, usize)>) {
+        while pos + 2 <= end && depth < 12 {
+            let tag = b[pos];
+            let mut p = pos + 1;
+            if tag & 0x1F == 0x1F {
+                while p < end && b[p] & 0x80 != 0 {
+                    p += 1;
+                }
+                p += 1;
+            }
+            if p >= end {
+                return;
+            }
+            let l0 = b[p];
+            let (len, lsize) = if l0 < 0x80 {
+                (l0 as usize, 1)
+            } else {
+                let n = (l0 & 0x7F) as usize;
+                if n == 0 || n > 4 || p + 1 + n > end {
+                    return;
+                }
+                (b[p + 1..p + 1 + n].iter().fold(0usize, |a, x| (a << 8) | *x as usize), 1 + n)
+            };
+            out.push((p, lsize, len));
+            let body = p + lsize;
+            if body + len > end {
+                return;
+            }
+            if tag & 0x20 != 0 {
+                walk(b, body, body + len, depth + 1, out);
+            }
+            pos = body + len;
+        }
+    }
+    let mut hdrs = Vec::new();
+    walk(bytes, start, bytes.len(), 0, &mut hdrs);
+    let mut v = Vec::new();
+    for (p, lsize, len) in hdrs {
+        let mut forms: Vec<Vec<u8>> = vec![vec![0x80], vec![0xFF]];
+        for n in 1..=8usize {
+            let be = |x: u64| -> Vec<u8> { (0..n).map(|i| (x >> (8 * (n - 1 - i))) as u8).collect() };
+            let max = if n == 8 { u64::MAX } else { (1u64 << (8 * n)) - 1 };
+            for val in [len as u64 & max, max, max >> 1, (max >> 1) + 1, (len as u64 + 1) & max] {
+                let mut f = vec![0x80 | n as u8];
+                f.extend_from_slice(&be(val));
+                forms.push(f);
+            }
+        }
+        for f in forms {
+            let mut m = bytes[..p].to_vec();
+            m.extend_from_slice(&f);
+            m.extend_from_slice(&bytes[p + lsize..]);
+            v.push(m);
+        }
+    }
+    v
+}
+
 pub fn sample_server_caps() -> Vec<(u16, Vec<u8>)> {
     const V: [u8; 431] = [
         9, 0, 8, 0, 234, 3, 0, 0, 1, 0, 24, 0, 1, 0, 3, 0, 0, 2, 0, 0, 0, 0, 29, 4, 0, 0, 0, 0, 0, 0, 1, 1, 20, 0, 12, 0, 2, 0, 0, 0, 64, 6, 0, 0, 10, 0, 8, 0, 6, 0, 0, 0, 8, 0, 10, 0, 1, 0, 25, 0, 25, 0, 27, 0, 6, 0, 3, 0, 14, 0, 8, 0, 1, 0, 0, 0, 2, 0, 28, 0, 32, 0, 1, 0, 1, 0, 1, 0, 32, 3, 88, 2, 0, 0, 1, 0, 1, 0, 0, 30, 1, 0, 0, 0, 29, 0, 96, 0, 4, 185, 27, 141, 202, 15, 0, 79, 21, 88, 159, 174, 45, 26, 135, 226, 214, 0, 3, 0, 1, 1, 3, 18, 47, 119, 118, 114, 189, 99, 68, 175, 179, 183, 60, 156, 111, 120, 134, 0, 4, 0, 0, 0, 0, 0, 166, 81, 67, 156, 53, 53, 174, 66, 145, 12, 205, 252, 229, 118, 11, 88, 0, 4, 0, 0, 0, 0, 0, 212, 204, 68, 39, 138, 157, 116, 78, 128, 60, 14, 203, 238, 161, 156, 84, 0, 4, 0, 0, 0, 0, 0, 3, 0, 88, 0, 0, 0, 0, 0, 0, 0, 0, 0, 0, 0, 0, 0, 0, 0, 0, 0, 64, 66, 15, 0, 1, 0, 20, 0, 0, 0, 1, 0, 0, 0, 170, 0, 1, 1, 1, 1, 1, 0, 0, 0, 1, 0, 0, 1, 0, 0, 0, 1, 1, 1, 1, 1, 1, 1, 1, 0, 1, 1, 1, 1, 0, 0, 0, 0, 161, 6, 6, 0, 64, 66, 15, 0, 64, 66, 15, 0, 1, 0, 0, 0, 0, 0, 0, 0, 18, 0, 8, 0, 1, 0, 0, 0, 13, 0, 88, 0, 117, 3, 0, 0, 0, 0, 0, 0, 0, 0, 0, 0, 0, 0, 0, 0, 0, 0, 0, 0, 0, 0, 0, 0, 0, 0, 0, 0, 0, 0, 0, 0, 0, 0, 0, 0, 0, 0, 0, 0, 0, 0, 0, 0, 0, 0, 0, 0, 0, 0, 0, 0, 0, 0, 0, 0, 0, 0, 0, 0, 0, 0, 0, 0, 0, 0, 0, 0, 0, 0, 0, 0, 0, 0, 0, 0, 0, 0, 0, 0, 0, 0, 0, 0, 23, 0, 8, 0, 255, 0, 0, 0, 24, 0, 11, 0, 2, 0, 0, 0, 3, 12, 0, 26, 0, 8, 0, 43, 72, 9, 0, 28, 0, 12, 0, 82, 0, 0, 0, 0, 0, 0, 0, 30, 0, 8, 0, 0, 0, 0, 0
